@@ -7,7 +7,7 @@ exit 0  property held on everything explored (KNOWN-FINDING lines allowed)
 exit 1  VIOLATION property=<id> replay=<path>
 exit 2  tool error / tooling time-out (never a violation)
 """
-import json, os, re, subprocess, sys, threading, time, shutil, hashlib
+import json, os, re, subprocess, sys, threading, time, shutil, hashlib, glob
 
 VERIF = os.path.dirname(os.path.dirname(os.path.abspath(__file__)))
 SPEC = os.path.join(VERIF, "spec")
@@ -138,12 +138,15 @@ def tlc_tail(res, n=40):
 class HarnessReplay:
     """`verif-harness replay` with stdin fed by the caller."""
 
-    def __init__(self, tag, workers=4, timeout_ms=20000):
+    def __init__(self, tag, workers=4, timeout_ms=20000, env_extra=None):
         self.out_path = os.path.join(WORK, tag + ".harness.out")
         self.outf = open(self.out_path, "w")
+        env = dict(os.environ)
+        env.pop("LIQUID_VERIF_TRACE", None)
+        env.update(env_extra or {})
         self.p = subprocess.Popen([HARNESS, "replay", "--workers", str(workers), "--timeout-ms", str(timeout_ms)],
                                   stdin=subprocess.PIPE, stdout=self.outf, stderr=subprocess.PIPE, text=True,
-                                  bufsize=1 << 20)
+                                  bufsize=1 << 20, env=env)
 
     def write(self, s):
         self.p.stdin.write(s)
@@ -232,10 +235,17 @@ class Check:
 
     # -- binding A
     def replay_stage(self, name, module, cfg, tlc_workers=8, harness_workers=4, timeout=1800, exhaustive=True,
-                     worker_timeout_ms=20000, tee=None, **kw):
+                     worker_timeout_ms=20000, tee=None, frames=False, frames_max_events=None, **kw):
+        """frames=True: the replaying workers also record the scope-frame hook events of every render
+        (cfg(liquid_verif)); the recorded traces are validated against Trace_Frames afterwards."""
         tag = "%s_%s_%s" % (self.prop, self.tier, name)
         log("[%s] stage %s: TLC %s/%s -> harness replay" % (self.prop, name, module, cfg))
-        h = HarnessReplay(tag, workers=harness_workers, timeout_ms=worker_timeout_ms)
+        fbase = os.path.join(WORK, tag + ".frames")
+        if frames:
+            for old in glob.glob(fbase + ".*"):
+                os.remove(old)
+        h = HarnessReplay(tag, workers=harness_workers, timeout_ms=worker_timeout_ms,
+                          env_extra={"LIQUID_VERIF_TRACE": fbase} if frames else None)
         sink = h
         teef = None
         if tee:
@@ -269,7 +279,53 @@ class Check:
             raise ToolError("emitted %d records but harness saw %d" % (res.emitted, summary["records"]))
         log("[%s]   %d states, %d records replayed, %d disagreements, %.1fs" %
             (self.prop, res.distinct, summary["records"], len(fails), res.wall))
+        if frames:
+            self.frames_stage(name + "-frames", glob.glob(fbase + ".*"), max_events=frames_max_events)
         return res, summary
+
+    def frames_stage(self, name, files, timeout=1800, split=8, max_events=None):
+        """Hook traces (one file per recording process) -> one ndjson -> Trace_Frames.  Only complete
+        Begin..End blocks are kept: a worker killed by the watchdog leaves a cut last block."""
+        tag = "%s_%s_%s" % (self.prop, self.tier, name)
+        merged = os.path.join(WORK, tag + ".ndjson")
+        traces = events = cut = stores = 0
+        every = 1
+        if max_events:
+            total = 0
+            for fp in files:
+                with open(fp, "rb") as f:
+                    total += sum(1 for _ in f)
+            every = max(1, -(-total // max_events))
+        seen = 0
+        with open(merged, "w") as out:
+            for fp in sorted(files):
+                block = []
+                with open(fp, errors="replace") as f:
+                    for ln in f:
+                        if ln.startswith('{"e":"Begin"'):
+                            if block:
+                                cut += 1
+                            block = [ln]
+                        elif block:
+                            block.append(ln)
+                            if ln.startswith('{"e":"End"') and ln.endswith("}\n"):
+                                seen += 1
+                                if seen % every == 0:      # quick tiers validate every k-th recorded render
+                                    out.writelines(block)
+                                    traces += 1
+                                    events += len(block)
+                                    stores += sum(1 for x in block if '"stored":true' in x)
+                                block = []
+                if block:
+                    cut += 1
+        for fp in files:
+            os.remove(fp)
+        if traces == 0:
+            raise ToolError("no scope-frame traces were recorded (hooks not compiled in?)")
+        info = {"traces": traces, "events": events, "cases": traces, "nontrivial": stores, "cut_blocks_dropped": cut,
+                "recorded_renders": seen, "validated_every": every}
+        return self.trace_stage(name, [], "Trace_Frames", "Trace_Frames.cfg", timeout=timeout, trace_path=merged,
+                                gen=False, split=split, boundary="Begin", info=info)
 
     # -- TLC only
     def model_stage(self, name, module, cfg, tlc_workers=8, timeout=1800, exhaustive=True, **kw):
@@ -327,13 +383,13 @@ class Check:
         return agg, trace_path
 
     def trace_stage(self, name, gen_args, module, cfg, timeout=1800, heap="4g", trace_path=None, gen=True, split=1,
-                    boundary="Reset"):
+                    boundary="Reset", info=None):
         """harness records ndjson traces of the real code; the trace spec must accept them."""
         tag = "%s_%s_%s" % (self.prop, self.tier, name)
         if trace_path is None:
             trace_path = os.path.join(WORK, tag + ".ndjson")
         log("[%s] stage %s: harness trace %s -> TLC %s" % (self.prop, name, " ".join(gen_args), module))
-        info = {}
+        info = info or {}
         if gen:
             r = subprocess.run([HARNESS, "trace"] + gen_args + ["--seed", str(self.seed), "--out", trace_path],
                                stdout=subprocess.PIPE, stderr=subprocess.PIPE, text=True)
